@@ -2,9 +2,11 @@ package evsim
 
 import (
 	"bytes"
+	sdkmath "cosmossdk.io/math"
 	"encoding/hex"
 	"encoding/json"
 	"fmt"
+	banktypes "github.com/cosmos/cosmos-sdk/x/bank/types"
 	"math/rand/v2"
 	"strings"
 	"time"
@@ -92,7 +94,13 @@ func init() {
 		case "acc_mixed": // invalid spelling
 			account = strings.ToUpper(account[:len(account)/2]) + account[len(account)/2:]
 		}
-		return []sdk.Msg{&vauthtypes.MsgSubmitProofExternalOwnedAccount{Submitter: w.wallet(op.W).Bech32(), Account: account, Signature: hx}}
+		msgs := []sdk.Msg{&vauthtypes.MsgSubmitProofExternalOwnedAccount{Submitter: w.wallet(op.W).Bech32(), Account: account, Signature: hx}}
+		if op.Hex == "failsend" {
+			// ... followed, in the same tx, by a message that fails: the whole tx is reverted, the proof with it
+			msgs = append(msgs, &banktypes.MsgSend{FromAddress: w.wallet(op.W).Bech32(), ToAddress: w.wallet(op.W + 1).Bech32(),
+				Amount: sdk.NewCoins(sdk.NewCoin(BaseDenom, sdkmath.NewIntFromBigInt(mustBig("999999999999999999999999999999"))))})
+		}
+		return msgs
 	}
 	opHandlers["export"] = func(w *World, op *Op) { c18RoundTrip(w) }
 	Arms["C18"] = &Arm{Gen: genC18, Run: runPc()}
